@@ -6,6 +6,7 @@ package plugin
 import (
 	"encoding/binary"
 	"fmt"
+	"github.com/hashicorp/go-plugin/internal/verifhook"
 	"log"
 	"net"
 	"sync"
@@ -57,6 +58,7 @@ func (m *MuxBroker) Accept(id uint32) (net.Conn, error) {
 	p := m.getStream(id)
 	select {
 	case c = <-p.ch:
+		verifhook.Point("mux.accept.gotConn", id)
 		close(p.doneCh)
 	case <-time.After(5 * time.Second):
 		m.Lock()
@@ -109,6 +111,7 @@ func (m *MuxBroker) Dial(id uint32) (net.Conn, error) {
 		return nil, err
 	}
 
+	verifhook.Point("mux.dial.wroteID", id)
 	// Read the ack that we connected. Then we're off!
 	var ack uint32
 	if err := binary.Read(stream, binary.LittleEndian, &ack); err != nil {
@@ -153,6 +156,7 @@ func (m *MuxBroker) Run() {
 		}
 
 		// Initialize the waiter
+		verifhook.Point("mux.run.gotID", id)
 		p := m.getStream(id)
 		select {
 		case p.ch <- stream:
@@ -188,6 +192,7 @@ func (m *MuxBroker) timeoutWait(id uint32, p *muxBrokerPending) {
 	case <-p.doneCh:
 	case <-time.After(5 * time.Second):
 		timeout = true
+		verifhook.Point("mux.timeoutWait.fired", id)
 	}
 
 	m.Lock()
